@@ -673,6 +673,19 @@ class ClusterNetSim(NetSim):
             received.append({"t": k.now_us, "f": cluster_fields(vam)})
             watch.rx(vam, deliver=orig_on_rx, variant="decoded")
         mgr.on_received_vam = on_received_vam
+        # -- update() calls made by the service itself (location_service_callback) are observed like the application's
+        orig_update = mgr.update
+        in_watch = [False]
+
+        def update(*a):
+            if in_watch[0]:
+                return orig_update(*a)
+            in_watch[0] = True
+            try:
+                return watch.call("update", *a)
+            finally:
+                in_watch[0] = False
+        mgr.update = update
         self.fac[station.idx] = {"mgr": mgr, "watch": watch, "tx": tx, "rx": rx, "received": received, "gen": station.gen,
                                  "silent": False, "joins": []}
 
